@@ -4,7 +4,30 @@ compared with the model's prediction (None = every field the model predicts), wh
 CACHE_FACTS = ['cacheGetExpiry', 'cacheCleanupExpiry', 'cacheEvictExpiry', 'cacheCleanupFactorMilli', 'cacheCapacityTestGE', 'defaultMaxSize']
 CACHE_TRUSTED = ['sync.RWMutex, container/list and Go maps behave as documented; the monotonic clock is non-decreasing (virtual clock in the runs)']
 
+H_TRUST = ['cookie authenticity and opacity are the ideal-MAC / unknown-keystream abstraction of C09 (a cookie is `good payload` or `bad`)',
+                 'token signature validity is the reference verdict by construction of each token (C02 ties it to the code); gzip+base64 is an abstract injective codec (stand-in of the measured length)',
+                 'net/http request parsing, header canonicalisation, http.Redirect path cleaning and body escaping; text/template execution (table computed by the harness)']
+H_RULE = 'one case = one HTTP request served by a real instance (browsers x instances x a scripted, checking provider, virtual time on whole seconds); scenarios = a phase-structured opening specific to the property followed by a weighted random walk over {request, full login, initiation, callback with own/stale/foreign/bogus state or code, logout, time jump, cookie tampering (garbage, bit flip, truncation, other key, oversize, renamed, deleted, older authentic value), snapshot, new/other instance, new/other browser}; distinct = distinct (abstract request, provider answer, observation); non-trivial = all'
+
+
+def hp(fields, expl, extra_facts=(), **kw):
+    d = dict(family='handler', fields=fields, facts=list(extra_facts), trusted=list(H_TRUST), rule=H_RULE, explanation=expl, timeout=1200,
+             assumptions=['a conformant provider is the harness provider: codes single-use and bound to redirect_uri and S256 challenge, ID token carries the nonce of the authorization request'])
+    d.update(kw)
+    return d
+
+
 PROPS = {
+    'C01': hp(['class', 'down', 'calls'], 'Lean: gate, protected_answers, excluded_passthrough, flag_origin, unauthenticated_redirects; tie: response class / downstream invocation / provider calls of every step; oracle: forwarded and not excluded => session valid by construction labels'),
+    'C03': hp(['class', 'calls', 'loc', 'jar'], 'Lean: callback_binds, csrf_after_step, initiation_stores_what_it_sends, consumed, replay_rejected, no_session_on_error, login_completes; tie: class, token-endpoint calls (code, verifier symbol, redirect_uri), Location parameters and the whole jar view after every step; oracle: a session is established only with state/nonce/challenge of the most recent initiation of that browser, replays contact nobody, values never repeat', extra_facts=['randomFromCryptoRand', 'nonceBytes', 'verifierBytes']),
+    'C04': hp(['class', 'calls', 'down'], 'Lean: session_continues (any later instance/time within the window), jar_fixed, accept_interval; tie: class and provider calls; oracle: own untampered session with exp-now > grace and age <= 24 h must be forwarded with zero provider calls on every instance', extra_facts=['maxCookieSize', 'absoluteSessionTimeoutSec']),
+    'C06': hp(['class', 'code', 'down'], 'Lean: isAllowedDomain_iff, rolesGate_iff, wrongly_typed_fails_closed, gate_every_forward, login_rejected; tie: class and status code; oracle: forwarded => reference domain predicate (regex + exact lookup) and reference role predicate on the token of this step'),
+    'C08': hp(['class', 'code', 'calls', 'jar', 'hdrs'], 'Lean: no_refresh_without_token, refresh_success, refresh_identity, refresh_grant_failed, refresh_bad_token_not_forwarded, refresh_never_5xx; tie: class, code, grant calls, stored tokens, forwarded identity; oracle: exactly one grant when due, forwarded identity and stored tokens from the new answer, 401/redirect and refresh-token removal on failure'),
+    'C10': hp(['class', 'hdrs'], 'Lean: identity_from_session, identity_noninterference, fixed/template names protected, forwarded_headers; tie: the identity and templated headers seen downstream; oracle: each such header is the derived value or absent'),
+    'C11': hp(['class', 'loc', 'jar', 'calls'], 'Lean: logout_ends, logout_location, postLogout_resolution, cleared_is_anonymous; tie: class, Location, jar after logout; oracle: Location equals the reference construction, no request forwarded after logout until a new login'),
+    'C15': hp(['class', 'loc'], 'Lean: stored_path_safe, initiate_stores_local, postLoginTarget_local, local_is_same_origin, callback_redirect_is_local, logout_target; tie: class and Location fields; oracle: origin of every Location as a browser resolves it is the request origin, the provider, or the configured post-logout URI', extra_facts=['maxIncomingPathLength']),
+    'C16': hp(['class', 'code', 'body', 'msg'], 'Lean: escape_safe, escape_entities, errPage_html, errPage_kinds, callback_error_body; tie: status, body kind and the rendered message of the request-derived error text; oracle: markers in every client-controlled field never appear unescaped in HTML, JSON bodies parse and carry the message as a string, anything else is text/plain'),
+    'C17': hp(['class', 'code', 'jar', 'calls'], 'Lean: only_callback_5xx_partial (K1 named), bad_is_absent, unusable_redirects, heals, stored_uri_bounded; tie: class, code, jar; oracle: no panic, no 5xx unless the scripted provider misbehaved, login from the resulting jar succeeds and the next request is forwarded', extra_facts=['maxIncomingPathLength', 'maxCookieSize', 'absoluteSessionTimeoutSec'], crash_is_violation=True),
     'C02': dict(
         family='jwt', fields=['r'], crash_is_violation=True,
         facts=['supportedAlgs', 'hashAlgs', 'rsaAlgPrefixes', 'ecAlgPrefixes', 'skewFutureSec', 'skewPastSec', 'nbfTypeChecked', 'ecdsaSigLenExact'],
